@@ -363,7 +363,7 @@ EnumEmit == ~Halted(mst) \/ PrintT(ToJson([fam |-> cur.fam, par |-> cur.c, prog 
 Recs == ndJsonDeserialize(IOEnv.OBS_FILE)                 \* [id, prog, devs, log, out, pos]
 \* named deviations (as-is rules of the engine for recorded findings); "*" selects all of them
 \* (the as-is rules of repaired defects - Dev_NoFnHoist, Dev_NoGlobalVarHoist, Dev_VarRedecl, Dev_SwitchDefaultOrder,
-\*  Dev_CallbackThrow, Dev_ErrorHierarchy, Dev_NoRuntimeLoc, Dev_NoLocInFunctions - stay in MiniJS as documentation of what
+\*  Dev_CallbackThrow, Dev_ErrorHierarchy, Dev_NoRuntimeLoc, Dev_NoLocInFunctions, Dev_LocNextStatement - stay in MiniJS as documentation of what
 \*  the snapshot did; they are no longer switched on, so a regression is a VIOLATION)
 AllDevs == {"Dev_CompletionTail", "Dev_CatchParamScope"}
 DevsOf(r) == LET S == {r.devs[j] : j \in 1..Len(r.devs)} IN IF "*" \in S THEN AllDevs ELSE S
